@@ -273,7 +273,7 @@ func (s *Stats) account(sc *Scenario, x *Exec) {
 	if nt {
 		s.NonTrivial++
 	}
-	if len(s.Outcomes) < 200000 {
+	if nt && len(s.Outcomes) < 200000 {
 		s.Outcomes[x.LogHash()]++
 	}
 	s.DevHist[x.Deviations()]++
